@@ -322,3 +322,23 @@ def real_bases(kind: str = 'plain'):
             if n > 2:
                 out.append(Config(spec=mk_spec(sh), requested=req, faults=(1,), died=(n - 1,)))
     return out
+
+
+def thorough_extras(prop: str):
+    """Families the quick tiers of the coordinator properties gained late (derived task types, post_init
+    helpers, mlflow_run types, a measured call after an aborted call through the same backend object):
+    the thorough tiers run them at the next larger bound.  Returns (e2 configs, serial configs, e3 configs)."""
+    cf = list(fam_inherit(3, batch=3, faults=prop not in ('C01', 'C03')))
+    se = list(fam_inherit(3, faults=prop not in ('C01', 'C03')))
+    e3 = list(fam_e3(fam_inherit(2), workers=(1, 2), liveness=False))
+    if prop in ('C01', 'C03'):
+        cf += list(fam_post_init(3, batch=3))
+        se += list(fam_post_init(3))
+        e3 += list(fam_e3(fam_post_init(3), workers=(1, 2), liveness=False))
+    if prop in ('C10', 'C11', 'C17'):
+        cf += list(fam_mlflow(3, batch=3))
+        se += list(fam_mlflow(3))
+    if prop in ('C01', 'C02', 'C03', 'C17'):
+        pre = [c for c in fam_shapes(2, 3, pre=False) if len(c.requested) == c.spec.n]
+        e3 += list(fam_e3(pre, workers=(1, 2), liveness=False, prelude=True))
+    return cf, se, e3
